@@ -222,12 +222,20 @@ class Interp:
         if not any((isinstance(b, ast.Name) and b.id in ('Enum', 'IntEnum', 'IntFlag', 'Flag')) or (isinstance(b, ast.Attribute) and b.attr in ('Enum', 'IntEnum', 'IntFlag', 'Flag')) for b in cnode.bases):
             return None
         out = {}
+        symbolic = []
         for n in cnode.body:
             if isinstance(n, ast.Assign) and len(n.targets) == 1 and isinstance(n.targets[0], ast.Name):
                 if isinstance(n.value, ast.Constant) and isinstance(n.value.value, int) and not isinstance(n.value.value, bool):
                     out[n.targets[0].id] = n.value.value
+                elif (isinstance(n.value, ast.Call) and not n.value.args and ((isinstance(n.value.func, ast.Name) and n.value.func.id == 'auto') or (isinstance(n.value.func, ast.Attribute) and n.value.func.attr == 'auto'))) \
+                        or (isinstance(n.value, ast.Constant) and isinstance(n.value.value, str)):
+                    symbolic.append(n.targets[0].id)          # auto() / a label: only the identity of the member matters
                 else:
                     return None
+        if symbolic:
+            if out or any((isinstance(b, ast.Name) and b.id in ('str', 'int', 'IntEnum', 'IntFlag', 'StrEnum')) for b in cnode.bases):
+                return None                    # mixed, or members that are also values of another type: not modelled
+            out = {nm: 1000 + i for i, nm in enumerate(symbolic)}      # distinct tokens; members are only ever compared with each other
         vals = list(out.values())
         return out if out and len(set(vals)) == len(vals) else None
 
@@ -489,7 +497,24 @@ class Interp:
             return [(p, ('opaque', 'lambda'))]
         raise Unsupported('expression %s at %s' % (type(n).__name__, s.loc(n)))
 
+    @staticmethod
+    def _namedtuple_fields(cnode):
+        """(field names, {name: default expr}) of `class X(NamedTuple)` with annotated fields and no methods overriding __new__; else None"""
+        if not any((isinstance(b, ast.Name) and b.id == 'NamedTuple') or (isinstance(b, ast.Attribute) and b.attr == 'NamedTuple') for b in cnode.bases):
+            return None
+        names, defaults = [], {}
+        for st in cnode.body:
+            if isinstance(st, ast.AnnAssign) and isinstance(st.target, ast.Name):
+                names.append(st.target.id)
+                if st.value is not None:
+                    defaults[st.target.id] = st.value
+            elif isinstance(st, ast.FunctionDef) and st.name in ('__new__', '__init__', '__getattribute__', '__getattr__'):
+                return None
+        return (names, defaults) if names else None
+
     def attr(s, p, base, n):
+        if base[0] == 'tuple' and len(base) == 4 and n.attr in base[3]:
+            return base[1][base[3].index(n.attr)]
         if base[0] == 'opaque' and base[1] == 'self':
             f = n.attr
             if f in p.flds:
@@ -685,6 +710,22 @@ class Interp:
                 g = s.glob(s.cur_mod, f.id)
                 if g and g[0] == 'func':
                     return s.inline_function(n, p, g[1], g[2])      # a helper function of the package (this module or the one it was moved to)
+                if g and g[0] == 'pkgclass':
+                    nt = s._namedtuple_fields(g[2])
+                    if nt is not None and not any(isinstance(a, ast.Starred) for a in n.args) and not any(k.arg is None for k in n.keywords):
+                        # a private NamedTuple of the package carrying a few values: a tuple whose components also have names
+                        names, defaults = nt
+                        given = {k.arg: k.value for k in n.keywords}
+                        exprs = list(n.args)
+                        for nm in names[len(exprs):]:
+                            if nm in given:
+                                exprs.append(given[nm])
+                            elif nm in defaults:
+                                exprs.append(defaults[nm])
+                            else:
+                                raise Unsupported('construction of %s at %s' % (f.id, s.loc(n)))
+                        if len(exprs) == len(names) and set(given) <= set(names[len(n.args):]):
+                            return [(q, ('tuple', vals, None, tuple(names))) for q, vals in s.evargs(exprs, p)]
                 if g and g[0] in ('pkgclass', 'enum'):
                     raise Unsupported('construction of %s at %s' % (f.id, s.loc(n)))
             return s.call_builtin(n, p, f.id)
@@ -854,6 +895,23 @@ class Interp:
             out = []
             for q, v in s.ev(n.args[0], p):
                 out += s.append_event(q, lid, v, n)
+            return out
+        if name == 'extend' and len(n.args) == 1:
+            a = n.args[0]
+            if isinstance(a, (ast.List, ast.Tuple)) and len(a.elts) == 1 and not isinstance(a.elts[0], ast.Starred):
+                out = []
+                for q, v in s.ev(a.elts[0], p):          # extend([x]) is append(x)
+                    out += s.append_event(q, lid, v, n)
+                return out
+            out = []
+            for q, v in s.ev(a, p):
+                if v[0] == 'frame' and lid == s.current_frame_list(q):
+                    # the elements of the frame, not the frame, go into the buffer: decided, not an imprecision
+                    q.events.append(('BADAPPEND', dict(where=s.loc(n), value='the elements of the frame (extend)')))
+                    q.heap[lid]['len'] = add(q.heap[lid]['len'], C(1))
+                    out.append((q, NONE))
+                else:
+                    raise Unsupported('list method extend at %s' % s.loc(n))
             return out
         if name == 'clear' and not n.args:
             h = p.heap[lid]
@@ -1238,6 +1296,14 @@ class Interp:
             # a local helper function: kept as a closure over the locals of this activation (it may read them; what it assigns is its own)
             p.locs[st.name] = ('localfn', hoist_walrus(st))
             return [(p, None)]
+        if isinstance(st, ast.FunctionDef) and not st.decorator_list and not st.args.args and not st.args.vararg and not st.args.kwarg and not st.args.kwonlyargs:
+            body_ = [b for b in st.body if not (isinstance(b, ast.Expr) and isinstance(b.value, ast.Constant))]
+            if body_ and len(body_) <= 12 and all(isinstance(b, ast.Expr) and isinstance(b.value, ast.Yield) and b.value.value is not None for b in body_) \
+                    and not any(isinstance(x, (ast.Yield, ast.YieldFrom, ast.Await, ast.NamedExpr, ast.Call)) for b in body_ for x in ast.walk(b.value.value)):
+                # a local generator that only yields a fixed sequence of effect-free expressions over the enclosing locals (a lazy table of
+                # checks): iterating over it is iterating over the tuple of those expressions (when each is evaluated cannot be observed)
+                p.locs[st.name] = ('localgen', [b.value.value for b in body_])
+                return [(p, None)]
         if isinstance(st, ast.Expr):
             v = st.value
             if isinstance(v, ast.Constant):
@@ -1307,7 +1373,10 @@ class Interp:
         if isinstance(st, ast.For) and not st.orelse:
             # `for x in <tuple / list whose elements are known>`: unrolled (tables of checks in the constructor, tuples of constants)
             out = []
-            for q, seq in s.ev(st.iter, p):
+            it_ = st.iter
+            if isinstance(it_, ast.Call) and isinstance(it_.func, ast.Name) and not it_.args and not it_.keywords and it_.func.id in p.locs and p.locs[it_.func.id][0] == 'localgen':
+                it_ = ast.copy_location(ast.Tuple(elts=list(p.locs[it_.func.id][1]), ctx=ast.Load()), it_)
+            for q, seq in s.ev(it_, p):
                 if seq[0] != 'tuple' or len(seq[1]) > 12:
                     raise Unsupported('For at %s: %s' % (s.loc(st), ast.unparse(st)[:70]))
                 cur = [(q, None)]
@@ -1348,6 +1417,10 @@ class Interp:
                         name = names.pop()
                     else:
                         raise Unsupported('raise of the result of %s at %s' % (ast.unparse(ex.func), s.loc(st)))
+            bad = s._format_failure(st.exc, p) if st.exc is not None else None
+            if bad is not None:
+                # building the message fails first: that exception, not the one named in the raise statement, leaves the function
+                name = bad
             p.events.append(('RAISE', dict(exc=name, where=s.loc(st))))
             return [(p, ('raise', name))]
         if isinstance(st, ast.Break):
@@ -1364,6 +1437,33 @@ class Interp:
                 out.append((q, ('raise', 'AssertionError')))
             return out
         if isinstance(st, ast.Delete):
+            # del X[k:]  keeps X[:k], in place (every alias of the list sees it)
+            if len(st.targets) == 1 and isinstance(st.targets[0], ast.Subscript) and isinstance(st.targets[0].slice, ast.Slice) \
+                    and st.targets[0].slice.upper is None and st.targets[0].slice.step is None and st.targets[0].slice.lower is not None:
+                tg = st.targets[0]
+                out = []
+                for q0, base in s.ev(tg.value, p):
+                    if base[0] != 'list':
+                        raise Unsupported('del statement at %s' % s.loc(st))
+                    for q, u in s.ev(tg.slice.lower, q0):
+                        if u[0] != 'lin':
+                            raise Unsupported('del with a bound that is not a number at %s' % s.loc(st))
+                        L = q.heap[base[1]]['len']
+                        U = u[1]
+                        s.note_taint(q, U, st, 'slice bound')
+                        for cs, newlen, kind in (([ge(U, C(0)), le(U, L)], U, 'prefix'), ([ge(U, C(0)), gt(U, L)], L, 'all'),
+                                                 ([lt(U, C(0)), ge(add(L, U), C(0))], add(L, U), 'drop'), ([lt(U, C(0)), lt(add(L, U), C(0))], C(0), 'dropall')):
+                            r = q.clone()
+                            r.assume(cs)
+                            if not feasible(r.cons):
+                                continue
+                            removed = add(L, newlen, -1)
+                            r.events.append(('DROPTRAIL', dict(L=L, removed=removed, R=r.gh.get('R'), kind=kind, where=s.loc(st), list=base[1], cons_len=len(r.cons))))
+                            r.heap[base[1]]['len'] = newlen
+                            if base[1] == s.current_frame_list(r) and r.gh.get('R') is not None:
+                                r.gh['R'] = add(r.gh['R'], removed, -1)
+                            out.append((r, None))
+                return out
             raise Unsupported('del statement at %s' % s.loc(st))
         if isinstance(st, (ast.Import, ast.ImportFrom, ast.Global, ast.Nonlocal)):
             return [(p, None)]
@@ -1373,6 +1473,62 @@ class Interp:
             if chain is not None:
                 return s.stmt(chain, p)
         raise Unsupported('%s at %s: %s' % (type(st).__name__, s.loc(st), ast.unparse(st)[:70]))
+
+    def _format_failure(s, exc, p):
+        """the exception raised while the message of a raise statement is built: a str.format / % template (a literal, or a local whose
+        value on this path is a known literal) asking for more arguments than the call gives.  None when the message builds."""
+        import string
+
+        def text_of(n):
+            if isinstance(n, ast.Constant) and isinstance(n.value, str):
+                return n.value
+            if isinstance(n, ast.Name) and n.id in p.locs:
+                v = p.locs[n.id]
+                if isinstance(v, tuple) and len(v) == 2 and v[0] == 'opaque' and isinstance(v[1], str) and v[1][:1] in ('"', "'"):
+                    try:
+                        t = ast.literal_eval(v[1])
+                    except Exception:
+                        return None
+                    return t if isinstance(t, str) else None
+            return None
+        for c in ast.walk(exc):
+            if isinstance(c, ast.Call) and isinstance(c.func, ast.Attribute) and c.func.attr == 'format':
+                t = text_of(c.func.value)
+                if t is None or any(isinstance(a, ast.Starred) for a in c.args) or any(k.arg is None for k in c.keywords):
+                    continue
+                try:
+                    fields = [f for _, f, _, _ in string.Formatter().parse(t) if f is not None]
+                except ValueError:
+                    return 'ValueError'
+                auto = 0
+                for f in fields:
+                    head = f.split('.')[0].split('[')[0]
+                    if head == '':
+                        idx = auto
+                        auto += 1
+                    elif head.isdigit():
+                        idx = int(head)
+                    else:
+                        if head not in {k.arg for k in c.keywords}:
+                            return 'KeyError'
+                        continue
+                    if idx >= len(c.args):
+                        return 'IndexError'
+            if isinstance(c, ast.BinOp) and isinstance(c.op, ast.Mod):
+                t = text_of(c.left)
+                if t is None:
+                    continue
+                import re as _re
+                specs = _re.findall(r'%(?!%)(\([^)]*\))?[#0\- +]*(\*|\d+)?(?:\.(\*|\d+))?[hlL]?[a-zA-Z]', t.replace('%%', ''))
+                if any(sp[0] for sp in specs):
+                    continue
+                need = len(specs) + sum(1 for sp in specs for x in sp[1:] if x == '*')
+                have = len(c.right.elts) if isinstance(c.right, ast.Tuple) else (1 if not isinstance(c.right, (ast.Name, ast.Attribute, ast.Call, ast.Subscript)) else None)
+                if isinstance(c.right, ast.Tuple) and any(isinstance(e, ast.Starred) for e in c.right.elts):
+                    have = None
+                if have is not None and have != need:
+                    return 'TypeError'
+        return None
 
     def deliver(s, p, v, node):
         if v[0] == 'tuple' and len(v) == 3 and len(v[1]) == 3:
